@@ -77,6 +77,135 @@ def defaultClone (node : WF) : WF := node.assign node.fortran false node.c false
 
 def defaultClones (node : WF) (ndefaults : Nat) : List WF := List.replicate ndefaults (defaultClone node)
 
+/-! ### initial flags: `WrapFlags(self.options)` after the node's own `options:` block is applied
+
+`util.Scope` lookup: the innermost block that mentions an option wins, otherwise the enclosing
+scope is asked, and finally the library defaults (`ast.default_options`). -/
+
+/-- what one `options:` block says about the four wrap options (`none` = not mentioned) -/
+structure WrapOpts where
+  fortran : Option Bool
+  c       : Option Bool
+  lua     : Option Bool
+  python  : Option Bool
+  deriving Repr, DecidableEq
+
+/-- scope chain lookup, innermost block first -/
+def lookupOpt (sel : WrapOpts → Option Bool) (dflt : Bool) : List WrapOpts → Bool
+  | [] => dflt
+  | o :: os => match sel o with
+    | some b => b
+    | none => lookupOpt sel dflt os
+
+/-- defaults of `wrap_fortran wrap_c wrap_lua wrap_python` (regenerated copy: `Gen.Flags.wrapDefaults`) -/
+def wrapDefaults : WF := ⟨true, false, true, false, false⟩
+
+/-- flags a node is created with: its own block (head of the chain) applied over the enclosing scopes -/
+def initFlags (chain : List WrapOpts) : WF :=
+  WF.init (lookupOpt (·.fortran) wrapDefaults.fortran chain) (lookupOpt (·.c) wrapDefaults.c chain)
+          (lookupOpt (·.lua) wrapDefaults.lua chain) (lookupOpt (·.python) wrapDefaults.python chain)
+
+/-! ### flag assignment of every clone-making step of `generate.GenFunctions`
+
+`d` = `WrapFlags(node.options)` (what `FunctionNode.clone` starts the clone with), `node` = the
+node's current flags when the step runs. -/
+
+inductive CloneKind where
+  | cxxTemplate     -- template_function: one clone per instantiation, original cleared
+  | defaultArg      -- has_default_args
+  | returnThis      -- process_return_this
+  | argToCfi        -- arg_to_CFI (C_new [+ F_new of result_as_arg])
+  | argToBuffer     -- arg_to_buffer (C_new [+ F_new of result_as_arg])
+  | fortranGeneric  -- generic_function: per entry one Fortran clone [+ one C clone]
+  deriving Repr, DecidableEq
+
+/-- content facts of the declaration that steer a step (facts about types and attributes, not flags) -/
+structure Variant where
+  nclones       : Nat     -- instantiations / defaulted parameters
+  fires         : Bool    -- the declaration has something to bufferify / a CFI argument or string result
+  resultByValue : Bool    -- std::string / std::vector returned by value: no plain C wrapper possible
+  vectorArg     : Bool    -- a std::vector argument: the plain C function is meaningless, Lua cannot wrap it
+  resultAsArg   : Bool    -- F_string_result_as_arg: an extra Fortran clone wraps the new C function
+  newC          : List Bool  -- fortran_generic: does entry i need its own C function
+  deriving Repr
+
+def cOnly (node : WF) : WF := node.assign false false true false false
+def fOnly (node : WF) : WF := node.assign true false false false false
+def cfOf (node : WF) : WF := node.assign node.fortran false node.c false false
+
+/-- tail shared by `arg_to_CFI` and `arg_to_buffer` once they decided to clone -/
+def bufClones (v : Variant) (node : WF) : WF × List WF :=
+  let node1 : WF := if v.vectorArg then { node with c := false, lua := false } else node
+  if v.resultAsArg then ({ node1 with fortran := false }, [cOnly node, fOnly node])
+  else (node1, [cOnly node])
+
+/-- `node.wrap.c = False` for a std::string / std::vector returned by value -/
+def dropCIf (b : Bool) (node : WF) : WF := if b then { node with c := false } else node
+
+/-- `arg_to_buffer` after its first guard: Fortran guard, content test, clones -/
+def bufStep (v : Variant) (node : WF) : WF × List WF :=
+  if !node.fortran || !v.fires then (node, []) else bufClones v node
+
+/-- one step: (node's flags afterwards, flags of the clones appended, in order).
+    `d` = `WrapFlags(node.options)` when the step starts. -/
+def step (k : CloneKind) (v : Variant) (d node : WF) : WF × List WF :=
+  match k with
+  | .cxxTemplate => (node.clear, List.replicate v.nclones d)
+  | .defaultArg => (node, List.replicate v.nclones (cfOf node))
+  | .returnThis =>
+      if !node.c && !node.fortran then (node, [])
+      else ({ node with c := false, fortran := false }, [cfOf node])
+  | .argToCfi =>
+      if !d.fortran || !node.fortran || !v.fires then (node, [])
+      else bufClones v (dropCIf v.resultByValue node)
+  | .argToBuffer =>
+      if !node.c then (node, []) else bufStep v (dropCIf v.resultByValue node)
+  | .fortranGeneric =>
+      if !node.fortran then (node, [])
+      else ({ node with fortran := false },
+            (v.newC.map (fun nc => fOnly node :: (if nc then [cOnly node] else []))).flatten)
+
+/-- the `wrap.assign(...)` sites `step` assumes, in the translator's encoding
+    (function, fortran, c_f, c, lua, python; 0 False 1 True 2 the node's own flag) -/
+def modelCloneAssigns : List (String × Nat × Nat × Nat × Nat × Nat) :=
+  [("generic_function", 1, 0, 0, 0, 0), ("generic_function", 0, 0, 1, 0, 0), ("has_default_args", 2, 0, 2, 0, 0),
+   ("result_as_arg", 1, 0, 0, 0, 0), ("arg_to_CFI", 0, 0, 1, 0, 0), ("arg_to_buffer", 0, 0, 1, 0, 0)]
+
+/-- `w` is on only where `d` is on -/
+def Within (w d : WF) : Prop := ∀ l : Lang, w.get l = true → d.get l = true
+
+/-- a generation history of one declared function: steps applied to the node, and to each clone its own
+    further history (clones of clones).  Each step records `d`, the flags of the node's options at that time
+    (`arg_to_CFI` switches `options.wrap_fortran` off for later steps). -/
+inductive Hist where
+  | mk (steps : List (CloneKind × Variant × WF × List Hist))
+
+mutual
+/-- flags of every member of the function's family at the end of `generate_functions` -/
+def runHist : Hist → WF → List WF
+  | .mk steps, node => runSteps steps node
+def runSteps : List (CloneKind × Variant × WF × List Hist) → WF → List WF
+  | [], node => [node]
+  | (k, v, d, hs) :: rest, node =>
+      runClones hs (step k v d node).2 ++ runSteps rest (step k v d node).1
+def runClones : List Hist → List WF → List WF
+  | _, [] => []
+  | [], c :: cs => c :: runClones [] cs
+  | h :: hs, c :: cs => runHist h c ++ runClones hs cs
+end
+
+mutual
+/-- every `d` (flags of the node's options) recorded in a history -/
+def allD : Hist → List WF
+  | .mk steps => allDSteps steps
+def allDSteps : List (CloneKind × Variant × WF × List Hist) → List WF
+  | [] => []
+  | (_, _, d, hs) :: rest => d :: (allDList hs ++ allDSteps rest)
+def allDList : List Hist → List WF
+  | [] => []
+  | h :: hs => allD h ++ allDList hs
+end
+
 /-! ### driver gating -/
 
 inductive Emitter where
